@@ -229,6 +229,14 @@ def scaled_and_zero_cases(tier, seed):
                         for g in (None, 3):
                             for s in ([seed] if quick else [seed, 1]):
                                 cases.append(_mk(op, N, r, eps, g, "float64", s, s_first=sf, s_second=ss))
+    # round 4: products whose NORM is below a loose eps, order >= 4 (a relative contract cannot depend on the unit of the data:
+    # absolute thresholds in the sweep's convergence test show up only here)
+    for op in ("fast_matvec", "dmrg_hadamard"):
+        for N in ([[4, 3, 4, 3, 4]] if quick else [[4, 3, 4, 3, 4], [3, 3, 3, 3], [2, 3, 4, 3, 2, 2]]):
+            for eps in (1e-3, 1e-4):
+                for s in ([seed, 1] if seed != 1 else [1, 2]):
+                    for f in ([1e-4] if quick else [1e-4, 1e-7]):
+                        cases.append(_mk(op, N, 3, eps, None, "float64", s, s_first=spread(f), s_second=spread(f)))
     if not quick:
         for op in ("fast_matvec", "dmrg_hadamard"):
             for N in [[2, 3], [2, 3, 2]]:
@@ -320,7 +328,7 @@ def bound(tier, seed):
                 "(first,second) operand scalings {(first core x1e-6, none), (none, last core x1e6), (1e6 spread, 1e6 spread), "
                 "(1e-6 spread, 1e-6 spread), (last core x1e3, first core x1e-6), (core k x10**(3(-1)**k), core k x10**(-3(-1)**k))}: "
                 "same relative contract. ROUND 3: every evaluation additionally checks clause operands_unchanged (A/x/y/B bit-for-bit "
-                "as before the call) and computes the exact product from snapshots taken BEFORE the call; extra family in which the "
+                "as before the call) and computes the exact product from snapshots taken BEFORE the call; ROUND 4: fast_matvec / dmrg_hadamard on N=[4,3,4,3,4], rank 3, both operands scaled by 1e-4 (product norm below eps), eps in {1e-3,1e-4}, 2 seeds; extra family in which the "
                 "guess IS an operand object: fast_matvec(initial=x) / amen_mv(x0=x) on N in {[3,3],[2,3,2],[5,5,5]} (square A), "
                 "dmrg_hadamard(z0=x) and (z0=y) on the same shapes, amen_mm(X0=A) and (X0=B) on N in {[3,3],[5,5,5]}; rank 2, eps "
                 "1e-6, 2 seeds." % seed)
